@@ -278,4 +278,74 @@ theorem kemeny_best_head {v : Pairwise} (hwf : WF v) {w : Cand} (hw : IsCW v w) 
       rw [hdecomp] at this
       exact lt_asymm hlt this
 
+/-! ### Smith efficiency: a best order lists a dominating set first -/
+
+theorem cross_swap_right (v : Pairwise) (A : List Cand) (o s : Cand) (B : List Cand) :
+    cross v A (o :: s :: B) = cross v A (s :: o :: B) := by
+  rw [cross_cons_right, cross_cons_right, cross_cons_right, cross_cons_right]; ring
+
+/-- swapping two neighbours changes the score by the difference of their two pairwise counts -/
+theorem kyScore_swap (v : Pairwise) (A : List Cand) (o s : Cand) (B : List Cand) :
+    kyScore v (A ++ s :: o :: B) = kyScore v (A ++ o :: s :: B) + (pget v (s, o) - pget v (o, s)) := by
+  rw [kyScore_append, kyScore_append, cross_swap_right, kyScore_cons, kyScore_cons, kyScore_cons, kyScore_cons,
+    rowSum_cons, rowSum_cons]
+  ring
+
+/-- a list whose head is outside `S` but which contains a member of `S` has an outsider standing
+    immediately before a member -/
+theorem exists_adjacent {S : Cand → Prop} [DecidablePred S] :
+    ∀ (l : List Cand) (a : Cand), ¬ S a → (∃ x ∈ l, S x) →
+      ∃ A o s B, a :: l = A ++ o :: s :: B ∧ ¬ S o ∧ S s := by
+  intro l
+  induction l with
+  | nil => intro a _ h; obtain ⟨x, hx, _⟩ := h; simp at hx
+  | cons b rest ih =>
+    intro a ha hex
+    by_cases hb : S b
+    · exact ⟨[], a, b, rest, rfl, ha, hb⟩
+    · have hex' : ∃ x ∈ rest, S x := by
+        obtain ⟨x, hx, hSx⟩ := hex
+        rcases List.mem_cons.1 hx with rfl | hx'
+        · exact absurd hSx hb
+        · exact ⟨x, hx', hSx⟩
+      obtain ⟨A, o, s, B, heq, ho, hs⟩ := ih b hb hex'
+      exact ⟨a :: A, o, s, B, by rw [heq]; rfl, ho, hs⟩
+
+/-- the unique best order starts with a member of every non-empty dominating set -/
+theorem kemeny_best_head_dominating {v : Pairwise} {S : Cand → Prop} [DecidablePred S]
+    (hS : Graph.Dominating (candidates v) (Beats v) S) (hne : ∃ s, S s) {best : List Cand}
+    (hp : best.Perm (candidates v))
+    (hbest : ∀ q, q.Perm (candidates v) → q ≠ best → kyScore v q < kyScore v best) :
+    ∃ a, best.head? = some a ∧ S a := by
+  obtain ⟨s0, hs0⟩ := hne
+  have hs0b : s0 ∈ best := hp.symm.subset (hS.1 s0 hs0)
+  cases hb : best with
+  | nil => rw [hb] at hs0b; simp at hs0b
+  | cons a rest =>
+    refine ⟨a, rfl, ?_⟩
+    by_contra ha
+    rw [hb] at hs0b
+    have hex : ∃ x ∈ rest, S x := by
+      rcases List.mem_cons.1 hs0b with h | h
+      · exact absurd (h ▸ hs0) ha
+      · exact ⟨s0, h, hs0⟩
+    obtain ⟨A, o, s, B, heq, ho, hs⟩ := exists_adjacent rest a ha hex
+    have hdecomp : best = A ++ o :: s :: B := by rw [hb, heq]
+    have hoc : o ∈ candidates v := hp.subset (by rw [hdecomp]; simp)
+    have hbeat := hS.2 s o hs hoc ho
+    have hq : (A ++ s :: o :: B).Perm (candidates v) := by
+      refine List.Perm.trans ?_ hp
+      rw [hdecomp]
+      exact List.Perm.append_left A (List.Perm.swap o s B)
+    have hneq : A ++ s :: o :: B ≠ best := by
+      rw [hdecomp]
+      intro h
+      have := List.append_cancel_left h
+      simp only [List.cons.injEq] at this
+      exact ho (this.1 ▸ hs)
+    have hlt := hbest _ hq hneq
+    rw [kyScore_swap, ← hdecomp] at hlt
+    unfold Beats at hbeat
+    linarith
+
 end VL.Condorcet
